@@ -35,21 +35,24 @@ def queries(tier):
                         units=UNITS, unit_defs=UD, defs=d, unwind=10, unwindset={'memset.0': 6, 'memset.1': 2}, remove_bodies=EXC, cap=cap,
                         backends=['cadical', 'minisat'], functions=FUNCTIONS))
     # finalizers: file-descriptor object + port over it; reachability of each per query, flags and share count free
-    for pr, fr in ((0, 0), (0, 1), (1, 0)):
-        for after in (0, 1):
-            d = {'MODE': 6, 'K': 6, 'PORT_REACHABLE': pr, 'FD_REACHABLE': fr}
-            if after:
-                d['FD_AFTER_PORT'] = 1
-            nm = 'port %s, descriptor %s, descriptor %s the port in the heap' % ('reachable' if pr else 'unreachable', 'reachable' if (fr or pr) else 'unreachable', 'behind' if after else 'before')
-            qs.append(Query(name='gc-step[finalizers: %s]' % nm, harness='C10_heap.c', units=UNITS, unit_defs=UD, defs=d, unwind=10,
-                            unwindset={'memset.0': 6, 'memset.1': 2}, remove_bodies=EXC, cap=cap, backends=['cadical', 'minisat'],
-                            functions=FUNCTIONS + ['sexp_finalize', 'sexp_finalize_port', 'sexp_finalize_fileno']))
+    for kind, knm in ((0, 'input port'), (1, 'output port, pending bytes, flush may fail'), (2, 'output port over a FILE stream, flush may fail')):
+        for pr, fr in ((0, 0), (0, 1), (1, 0)):
+            for after in (0, 1):
+                if kind and after:
+                    continue
+                d = {'MODE': 6, 'K': 6, 'PORT_REACHABLE': pr, 'FD_REACHABLE': fr, 'PORT_KIND': kind}
+                if after:
+                    d['FD_AFTER_PORT'] = 1
+                nm = '%s %s, descriptor %s, descriptor %s the port in the heap' % (knm, 'reachable' if pr else 'unreachable', 'reachable' if (fr or pr) else 'unreachable', 'behind' if after else 'before')
+                qs.append(Query(name='gc-step[finalizers: %s]' % nm, harness='C10_heap.c', units=UNITS, unit_defs=UD, defs=d, unwind=10,
+                                unwindset={'memset.0': 6, 'memset.1': 2, 'memmove.0': 6, 'memmove.1': 6, 'memmove.2': 10, 'memmove.3': 10}, remove_bodies=EXC, cap=cap, backends=['cadical', 'minisat'],
+                                functions=FUNCTIONS + ['sexp_finalize', 'sexp_finalize_port', 'sexp_finalize_fileno', 'sexp_buffered_flush']))
     return qs
 
 
-BOUNDS = {'finalizers': 'sentinel + 6 slots: root pair, file-descriptor object, input port over it (3 slots), spare pair; reachability per query; open/no-close flags of both and the share count (1|2) free; close() counted; finalize, sweep, finalize again',
+BOUNDS = {'finalizers': 'sentinel + 6 slots: root pair, spare pair, file-descriptor object, port over it (3 slots: input, output with pending bytes and a final flush that may fail, or output over a FILE stream); reachability per query; open/no-close flags of both and the share count (1|2) free; close() counted; finalize, sweep, finalize again',
           'heap': 'sentinel + 4 slots: root pair, ephemeron, key object, value object; the root references the key or not (free), the value refers back to the key or not (free)',
           'sequence': 'sexp_mark from the root, ephemeron value pass, sexp_reset_weak_references, sexp_sweep (the body of sexp_gc without the walk over the context object)'}
 ASSUMPTIONS = R_ASSUME + ['gc.c textually included; marking starts from a root object inside the heap instead of the context (the context walk is the same sexp_mark_one code on a much larger graph)']
-OUTSIDE = ['output ports (flush on finalization), stream-backed ports (fclose), sockets (shutdown)', 'collect-and-retry on EMFILE (needs real descriptors)',
+OUTSIDE = ['sockets (shutdown), string/custom output ports', 'collect-and-retry on EMFILE (needs real descriptors)',
            'weak hash tables written in Scheme', 'more than two ephemerons']
